@@ -20,6 +20,7 @@
         model = the entry of the regenerated Gen.localeTable, spec = 1
 -/
 import Gozod.Model.Msg
+import Gozod.Model.MsgExpect
 import Gozod.Model.Config
 import Gozod.Gen.MsgWiring
 import Gozod.Gen.LocaleTable
@@ -27,20 +28,17 @@ import Gozod.Gen.IssueSites
 namespace Gozod.Drv.C18
 open Gozod.Msg
 
-/-- `leaf@wrapper`; a two-level site `leaf@outer>inner` (thorough tier) is predicted from the entry of
-    `leaf@inner`: an outer container must not change which sources reach the leaf's issue. -/
-def findSite (id : String) : Option Site :=
+/-- `leaf@wrapper`, `leaf@outer>…>inner`: the leaf and the chain of positions (outermost first; `top` = no position).
+    Every cell is predicted from the EXPECTATION (Model/MsgExpect.lean: the listed gap of the leaf, the expected forwarding of
+    every position) through `Msg.nestedMessage` — the definition `nested_message` / `c18_every_depth_expected` are about — and
+    not from the observed tables. -/
+def parseSite (id : String) : Option (String × List String) :=
   match id.splitOn "@" with
   | [leaf, w] =>
-    let chain := w.splitOn ">"
-    let inner := chain.getLast?.getD w
-    -- a position of the chain that does not forward the context loses the per-parse map for everything below it
-    let lost := chain.dropLast.any fun n =>
-      match Gozod.Gen.positions.find? (fun p => p.name == n) with
-      | some p => !p.forwardsCtx
-      | none => false
-    (Gozod.Gen.sites.find? (fun s => s.leaf == leaf && s.wrapper == inner)).map fun s =>
-      if lost then { s with passes := { s.passes with parse := false }, passesSilentCheck := { s.passesSilentCheck with parse := false } } else s
+    let chain := if w == "top" then [] else w.splitOn ">"
+    -- the leaf and every position must be known to the run (regenerated tables): a typo must not be predicted
+    if (Gozod.Gen.topPasses.lookup leaf).isSome && chain.all (fun n => Gozod.Gen.positions.any (fun p => p.name == n))
+    then some (leaf, chain) else none
   | _ => none
 
 def setOf (s : String) : SrcSet := if s == "-" then SrcSet.empty else SrcSet.ofString s
@@ -60,11 +58,10 @@ def answers (m : Option String) : Bool :=
   | none => false
 
 /-- winner under a stored global configuration: "g"/"l" + the tag of the answering map, or the base -/
-def histWinner (passes : SrcSet) (base : String) (cfg : Gozod.Config.Cfg String) : String :=
-  let w := siteMessage passes ⟨false, false, false, answers cfg.custom, answers cfg.locale⟩
-  if w = "g" then "g" ++ cfg.custom.getD "" else if w = "l" then "l" ++ cfg.locale.getD "" else base
+def histWinner (drops : SrcSet) (chain : List String) (cfg : Gozod.Config.Cfg String) : String :=
+  let w := expectedWire drops chain ⟨false, false, false, answers cfg.custom, answers cfg.locale⟩
+  if w = "g" then "g" ++ cfg.custom.getD "" else if w = "l" then "l" ++ cfg.locale.getD "" else "d"
 
-def all5 : SrcSet := ⟨true, true, true, true, true⟩
 
 /-- the finalising row of the static table that contains `file:line` (the innermost call when calls nest) -/
 def findRow (loc : String) : Option IssueSite :=
@@ -84,26 +81,32 @@ def srcUnion (a b : SrcSet) : SrcSet :=
 
 def handle : List String → String
   | ["wire", site, _kind, _wrapper, _appl, cfg] =>
-    match findSite site with
-    | some s => s!"{s.winner (setOf cfg)} {firstConfigured (setOf cfg)}"
+    match parseSite site with
+    | some (leaf, chain) => s!"{expectedWire (gapOf leaf) chain (setOf cfg)} {firstConfigured (setOf cfg)}"
     | none => "no-such-site -"
   | ["silent", site, _kind, _wrapper, _appl, cfg, silent] =>
     -- a source that answers "" is as good as not configured (finalize_silent_*)
     let eff := (setOf cfg).diff (setOf silent)
-    match findSite site with
-    | some s => s!"{s.winnerSilent (setOf cfg) (setOf silent)} {firstConfigured eff}"
+    match parseSite site with
+    | some (leaf, chain) =>
+      let drops := if (setOf silent).check then gapSilentCheckOf leaf else gapOf leaf
+      s!"{expectedWire drops chain eff} {firstConfigured eff}"
     | none => "no-such-site -"
   | ["hist", site, h] =>
-    match findSite site, (h.splitOn ",").mapM parseCall with
-    | some s, some calls =>
-      s!"{histWinner s.passes s.base (Gozod.Config.run calls)} {histWinner all5 "d" (Gozod.Config.spec calls)}"
+    match parseSite site, (h.splitOn ",").mapM parseCall with
+    | some (leaf, chain), some calls =>
+      s!"{histWinner (gapOf leaf) chain (Gozod.Config.run calls)} {histWinner SrcSet.empty [] (Gozod.Config.spec calls)}"
     | _, _ => "bad-op -"
   | ["dep", site, spec] =>
     -- issue-dependent maps: the raw issue's features come from the regenerated `Gen.leafSeen`
-    match findSite site with
-    | some s =>
-      match Gozod.Gen.leafSeen.lookup (s.leaf ++ "@" ++ s.wrapper) with
-      | some f => s!"{s.winnerDep spec.toList f} {specDep spec.toList f}"
+    match parseSite site with
+    | some (leaf, chain) =>
+      match Gozod.Gen.leafSeen.lookup site with
+      | some f =>
+        let sp := spec.toList
+        let silentCheck := (sp.getD 0 '-') != '-' && !(depAnswers (sp.getD 0 '-') f)
+        let drops := if silentCheck then gapSilentCheckOf leaf else gapOf leaf
+        s!"{expectedMessage drops chain (depSources sp f) f} {specDep sp f}"
       | none => "no-such-leaf -"
     | none => "no-such-site -"
   | ["reach", outer, fin, _cell, _appl, src] =>
